@@ -448,6 +448,18 @@ func runPlan(c *pbt.Case, p Plan) {
 				target = pr.Store.ID()
 			}
 			connected := pr.Store.SubscriberByNodeID(target) != nil
+			// (a node can connect between this look and the request: it then *is* a connected
+			// replica when the primary decides; streams the target opens meanwhile show that)
+			var tnode *cluster.CNode
+			for _, x := range nodes {
+				if x.Up && x.Store.ID() == target && x != pr {
+					tnode = x
+				}
+			}
+			streamsBefore := 0
+			if tnode != nil {
+				streamsBefore = tnode.FC.StreamCount()
+			}
 			_, leaseBefore := cl.Svc.Holder()
 			pr.CloseConns()
 			if st.Arg == "node-renew-fails" {
@@ -466,7 +478,10 @@ func runPlan(c *pbt.Case, p Plan) {
 				break
 			}
 			c.Labelf("handoff:%s:connected=%v:err=%v", st.Arg, connected, err != nil)
-			if !connected && err == nil {
+			if tnode != nil && tnode.FC.StreamCount() != streamsBefore {
+				connected = true
+			}
+			if !connected && err == nil && pr.Store.SubscriberByNodeID(target) == nil {
 				c.Failf("C08/handoff-to-unconnected-node", "%s: Handoff to node id %x, which is not a connected replica, was accepted", when, target)
 			}
 			if err == nil {
